@@ -36,4 +36,31 @@ inductive Req where
   | untilClose
   deriving DecidableEq, Repr
 
+/-! ### transport arrivals the IOLoop has not yet reported (added after the missed seeded change C13-2)
+
+`Op.feed` / `Op.eof` / `Op.rerr` are `FakeStream.feed*`: the transport changes AND the stream's handler runs at once (if it
+is listening).  A real IOLoop reports readiness once per iteration: the peer's last bytes and its RST (or FIN) are usually
+both in the kernel when `_handle_read` runs, so one pass of `_read_to_buffer_loop` pulls the bytes chunk by chunk and then
+hits the error — `close(exc_info=e)` is called INSIDE the loop, with the read still registered and possibly satisfied by
+bytes the loop has not rescanned yet.  `XOp.arrive b` = bytes reach the transport and nothing runs; the next event
+(`feed` / `eof` / `rerr`) or read call picks them up together with whatever follows them. -/
+
+inductive XOp where
+  | op (o : Op)
+  | arrive (b : Bytes)
+  deriving DecidableEq, Repr
+
+def arrive (s : St) (b : Bytes) : St := if b.isEmpty then s else { s with inc := s.inc ++ [b] }
+
+def stepX (R : Nat → Bytes → Option Nat) (s : St) : XOp → St × Out
+  | .op o => step R s o
+  | .arrive b => (arrive { s with out := [] } b, { ret := .unit, evs := [] })
+
+def runX (R : Nat → Bytes → Option Nat) (s : St) : List XOp → St × List Out
+  | [] => (s, [])
+  | op :: ops =>
+    let (s1, o) := stepX R s op
+    let (s2, os) := runX R s1 ops
+    (s2, o :: os)
+
 end TornadoModel.C13
